@@ -235,7 +235,8 @@ def check_case(case):
             if not max(exc) >= n - 0.3 and exc[-1] <= exc[0] + 0.2:
                 kind = "heavy" if name in (f"pid-row{IDX[case['nfl'] + 1]}", f"pid-row{IDX[-(case['nfl'] + 1)]}", f"q{case['nfl'] + 1}-qbar") else "light"
                 res.fail(
-                    f"{ID}/exponent-channel/{kind}/n={n}/mode={case['mode']}/dir={direction}",
+                    # more than 1.5 orders short is a different (grosser) failure than the listed ones (one order short)
+                    f"{ID}/exponent-channel{'-gross' if max(exc) < n - 1.5 else ''}/{kind}/n={n}/mode={case['mode']}/dir={direction}",
                     f"channel {name}: matching-ratio dependence for k={case['k']} scales with local exponents "
                     f"{['%.2f' % e for e in exc]} (R={['%.3e' % r for r in Rc]}, lambdas {case['lambdas']}); required >= {n - 0.3:.1f}; "
                     f"path {card['init']} -> {card['mugrid'][0]} inv={card['inv']} method={card['method']}",
@@ -246,7 +247,7 @@ def check_case(case):
     res.classes.append(f"best-exp~{round(best * 2) / 2}")
     if not best >= n - 0.3:
         res.fail(
-            f"{ID}/exponent/n={n}/mode={case['mode']}/dir={direction}",
+            f"{ID}/exponent{'-gross' if best < n - 1.5 else ''}/n={n}/mode={case['mode']}/dir={direction}",
             f"matching-ratio dependence |f_k1 - f_k2| for k={case['k']} scales with local exponents {['%.2f' % e for e in ex]} "
             f"(R={['%.3e' % r for r in R]}, lambdas {case['lambdas']}); required >= {n - 0.3:.1f} at order {n}; "
             f"path {card['init']} -> {card['mugrid'][0]} inv={card['inv']} method={card['method']}",
